@@ -1,9 +1,10 @@
-(** Base lemmas about association lists, leaf sets and [valid] used by the C07 proofs.
-    The text below is a verbatim copy of the first part of Proofs/CutsProofs.v (property C08), kept separately so that
-    the C07 development does not depend on the rest of that (much larger, independently evolving) file. *)
+(** Base lemmas about lists, association lists, leaf sets and [valid] used by the C07 proofs.
+    The text below is a verbatim copy of parts of Proofs/CutsProofs.v (property C08: its first four sections and three
+    small list lemmas), kept separately so that the C07 development does not depend on the rest of that much larger,
+    independently evolving file. *)
 From SKN Require Import Base.Util Model.Dendrogram.
 From Coq Require Import Permutation Lia.
-
+Close Scope Q_scope.
 Open Scope nat_scope.
 
 (** * Lists *)
@@ -293,3 +294,43 @@ Proof.
   apply H. now rewrite seq_length.
 Qed.
 
+Lemma linv_init ws : linv (length ws) [] (init_live ws).
+Proof.
+  unfold linv. rewrite init_live_keys. simpl. split; [apply seq_NoDup|]. split.
+  - intros x. rewrite in_seq. lia.
+  - tauto.
+Qed.
+
+Lemma validw_rows ws D : validw ws D = true ->
+  S (length D) = length ws /\ forall t r, nth_error D t = Some r -> row_ok (length ws) D t r.
+Proof.
+  unfold validw. intros H. apply andb_true_iff in H. destruct H as [H _].
+  apply andb_true_iff in H. destruct H as [Hlen Hrun]. apply Nat.eqb_eq in Hlen. split; [exact Hlen|].
+  destruct (valid_run (length ws) D (init_live ws)) as [live'|] eqn:E; [|discriminate].
+  destruct (valid_run_rows (length ws) D D [] (init_live ws) live' eq_refl (linv_init ws)) as [H1 _].
+  { simpl. now rewrite Nat.add_0_r. }
+  intros t r Hr. apply H1; [simpl; lia | exact Hr].
+Qed.
+
+Lemma valid_rows n D : valid n D = true ->
+  S (length D) = n /\ forall t r, nth_error D t = Some r -> row_ok n D t r.
+Proof.
+  unfold valid. intros H. apply validw_rows in H. now rewrite repeat_length in H.
+Qed.
+
+Lemma valid_ids_lt n D : valid n D = true -> ids_lt n D.
+Proof.
+  intros H t r Hr. destruct (valid_rows n D H) as [_ H2]. specialize (H2 t r Hr). unfold row_ok in H2. tauto.
+Qed.
+
+Lemma map_fst_combine {A B} (a : list A) (b : list B) : length a = length b -> map fst (combine a b) = a.
+Proof.
+  revert b. induction a as [|x a IH]; intros [|y b]; simpl; intros E; try discriminate; [reflexivity|].
+  f_equal. apply IH. lia.
+Qed.
+
+Lemma In_le_list_max x l : In x l -> x <= list_max l.
+Proof.
+  intros H. assert (Hf := proj1 (list_max_le l (list_max l)) (Nat.le_refl _)).
+  rewrite Forall_forall in Hf. now apply Hf.
+Qed.
